@@ -118,6 +118,8 @@ struct RefEnv {
 
 static ld pert(RefEnv &env, ld v)
 {
+    if (std::isnan(v) || std::isinf(v))
+        env.bad = true; // a singular point of the reference: outside the accuracy oracle
     if (!env.perturb)
         return v;
     env.rng = env.rng * 6364136223846793005ULL + 1442695040888963407ULL;
@@ -357,10 +359,13 @@ static std::string accuracy(const Basic &b, const vec_basic *syms, const std::ve
     ld r0 = ref(b, e0);
     if (e0.bad)
         return "";
-    if (std::isnan(r0) || std::isinf(r0) || std::isnan(got) || std::isinf(got)) {
+    if (std::isnan(r0) || std::isinf(r0)) {
         // the property is about finite results; NaN/inf are compared with the model only
         return "";
     }
+    bool got_bad = std::isnan(got) || std::isinf(got);
+    if (got_bad && fabsl(r0) > 1.0e300L)
+        return "";
     ld spread = 0;
     for (int k = 0; k < 8; k++) {
         RefEnv ek = {syms, vals, true, 0x9e3779b97f4a7c15ULL * (uint64_t)(k + 1), false, 0};
@@ -380,6 +385,11 @@ static std::string accuracy(const Basic &b, const vec_basic *syms, const std::ve
     *checked = true;
     if (tol_out)
         *tol_out = tol;
+    if (got_bad) {
+        char b2[160];
+        snprintf(b2, sizeof b2, "got %s where the reference is %.21Lg", std::isnan(got) ? "nan" : "inf", r0);
+        return b2;
+    }
     if (fabsl((ld)got - r0) <= tol)
         return "";
     char buf[256];
@@ -647,6 +657,8 @@ static std::string run_history(const std::string &line, int wfd)
                         for (size_t i = 0; same && i < outs.size(); i++) {
                             if (std::isnan(outs[i]) || std::isnan(o2[i]))
                                 same = std::isnan(outs[i]) && std::isnan(o2[i]);
+                            else if (std::isinf(outs[i]) || std::isinf(o2[i]))
+                                same = outs[i] == o2[i];
                             else if (checked[i])
                                 same = fabsl((ld)outs[i] - (ld)o2[i]) <= 2 * tols[i];
                         }
